@@ -16,6 +16,7 @@
 //   pos <L> v<k> <n> base=..                 print literal node through xpr_expr, then Decl_position{n} (C18 decimal check)
 //   level <L> v<k> <n> base=..               same with Mapping_level{n}
 // Sweep mode (argv[1] == "sweep"): one live node per category x 4 routes, each in a forked child with an 8 MiB stack.
+// Cycles mode (argv[1] == "cycles"): graphs that are cyclic along printed operands and their acyclic neighbours, same treatment.
 #include <ipr/impl>
 #include <ipr/io>
 #include <ipr/traversal>
@@ -819,7 +820,7 @@ static void scramble(unsigned seed)
 }
 
 // ------------------------------------------------------------------------------------------------ sweep (C18)
-struct Item { std::string name; const Expr* e; };
+struct Item { std::string name; const Expr* e; const Lexicon* lex = nullptr; };
 
 static std::vector<Item> sweep_items(World& w)
 {
@@ -907,11 +908,55 @@ static std::vector<Item> sweep_items(World& w)
    return items;
 }
 
+// Graphs that are cyclic along printed operands (no C++ program has them), and their acyclic neighbours.
+//   CycleU_* : S : class = <unnamed class c>;  c has one base of type forall<>(c).  xpr_type_expr_visitor::visit(Forall) prints its
+//              target through xpr_type_expr (the class *body*), whose bases print the Forall again.
+//   CycleN_* : the same with a named class (the name does not cut this cycle).
+//   CutN_* / CutU_* : base type product(c) / function(product(c)) : the class is reached through xpr_type, which prints the name
+//              (named) or raises logic_error (unnamed).
+static std::vector<Item> cycle_items(std::vector<std::unique_ptr<World>>& worlds)
+{
+   std::vector<Item> items;
+   auto make = [&](const std::string& tag, bool named, int shape) {
+      worlds.push_back(std::make_unique<World>());
+      World& w = *worlds.back();
+      auto& lex = w.lex;
+      auto& G = *w.unit.global_region();
+      auto* c = lex.make_class(G);
+      if (named) c->id = &lex.get_identifier(u8"C");
+      impl::Warehouse<Type> none, one;
+      one.push_back(*c);
+      const Type* f = nullptr;
+      switch (shape) {
+      case 0: f = &lex.get_forall(lex.get_product(none), *c); break;                       // the cycle
+      case 1: f = &lex.get_product(one); break;
+      default: f = &lex.get_function(lex.get_product(one), lex.int_type()); break;
+      }
+      auto* b = c->declare_base(*f);
+      auto* td = G.declare_type(lex.get_identifier(u8"S"), lex.class_type());
+      td->init = Optional<ipr::Type>{ c };
+      items.push_back({ tag + "_typedecl", td, &lex });
+      items.push_back({ tag + "_unit", w.unit.global_scope(), &lex });
+      items.push_back({ tag + "_base", b, &lex });
+      items.push_back({ tag + "_basetype", f, &lex });
+      items.push_back({ tag + "_class", c, &lex });
+   };
+   make("CycleU", false, 0);
+   make("CycleN", true, 0);
+   make("CutN_product", true, 1);
+   make("CutU_product", false, 1);
+   make("CutN_function", true, 2);
+   make("CutU_function", false, 2);
+   return items;
+}
+
 static int sweep_main(int argc, char** argv)
 {
-   // argv: sweep [only-kind]
+   // argv: sweep|cycles [only-kind]
    World w;
-   auto items = sweep_items(w);
+   std::vector<std::unique_ptr<World>> worlds;
+   auto items = std::string(argv[1]) == "cycles" ? cycle_items(worlds) : sweep_items(w);
+   for (auto& it : items) if (not it.lex) it.lex = &w.lex;
    std::string only = argc > 2 ? argv[2] : "";
    const char* routes[] = { "expr", "stmt", "decl", "type" };
    unsigned n = 0;
@@ -928,10 +973,10 @@ static int sweep_main(int argc, char** argv)
          struct rlimit rl { 8u << 20, 8u << 20 }; setrlimit(RLIMIT_STACK, &rl);
          alarm(20);
          std::string dump;
-         try { dump = dump_text(w.lex, *it.e); } catch (...) { dump = ""; }
+         try { dump = dump_text(*it.lex, *it.e); } catch (...) { dump = ""; }
          std::string out;
          for (int loc = 0; loc < 2; ++loc) {
-            auto r = run_print(w.lex, loc, 10, -1, 0, [&](Printer& pp) { print_route(pp, route, *it.e); });
+            auto r = run_print(*it.lex, loc, 10, -1, 0, [&](Printer& pp) { print_route(pp, route, *it.e); });
             out += "result loc=" + std::to_string(loc) + " " + r.line + " flags_same=" + (r.flags_same ? "1" : "0") + "\n";
          }
          out += dump + "enddump\n";
@@ -971,7 +1016,7 @@ static int opt_int(const std::vector<std::string>& ws, const std::string& key, i
 int main(int argc, char** argv)
 {
    std::ios::sync_with_stdio(false);
-   if (argc > 1 and std::string(argv[1]) == "sweep") return sweep_main(argc, argv);
+   if (argc > 1 and (std::string(argv[1]) == "sweep" or std::string(argv[1]) == "cycles")) return sweep_main(argc, argv);
    std::map<std::string, std::unique_ptr<World>> worlds;
    std::string line;
    unsigned salt = 0;
